@@ -487,10 +487,10 @@ class Exec(object):
         which = "play_Note" if op.get("on", True) else "stop_Note"
         p = score.pitch_of(name, octave) + 12
         if op.get("on", True):
-            ret, exc, evs, _ = self.call("play_Note", n, op.get("argch", 1), op.get("argvel", 100))
+            ret, exc, evs, _ = self.call("play_Note", n, op.get("argch", 1), op.get("argvel", 100)) if not op.get("dflt") else self.call("play_Note", n)
             exp = [("on", (p, ch, vel))]
         else:
-            ret, exc, evs, _ = self.call("stop_Note", n, op.get("argch", 1))
+            ret, exc, evs, _ = self.call("stop_Note", n, op.get("argch", 1)) if not op.get("dflt") else self.call("stop_Note", n)
             exp = [("off", (p, ch))]
         self.shape.append(which)
         self._note_events_check(which, evs, exp, exc, {})
@@ -595,7 +595,11 @@ class Exec(object):
             self.probes["skipped_precondition"] += 1
             return
         feats = {"tempo_jump": any(e.get("bpm") is not None for e in mb.entries)}
-        self._sequential("play_Bar", (mb.obj, op.get("ch", 1), op["bpm"]), mb.entries, op["bpm"], feats)
+        if op.get("dflt"):
+            self.probes["default_arguments_used"] += 1
+            self._sequential("play_Bar", (mb.obj,), mb.entries, 120, feats)
+        else:
+            self._sequential("play_Bar", (mb.obj, op.get("ch", 1), op["bpm"]), mb.entries, op["bpm"], feats)
 
     def do_play_track(self, op):
         mt = self.world.pick(self.world.tracks, op["track"])
@@ -607,7 +611,11 @@ class Exec(object):
             return
         entries = [e for b in bars for e in b.entries]
         feats = {"tempo_jump": any(e.get("bpm") is not None for e in entries), "bars": len(bars)}
-        self._sequential("play_Track", (mt.obj, op.get("ch", 1), op["bpm"]), entries, op["bpm"], feats)
+        if op.get("dflt"):
+            self.probes["default_arguments_used"] += 1
+            self._sequential("play_Track", (mt.obj,), entries, 120, feats)
+        else:
+            self._sequential("play_Track", (mt.obj, op.get("ch", 1), op["bpm"]), entries, op["bpm"], feats)
 
     # -- parallel composite calls --------------------------------------------
     def _voices_ok(self, voices_per_bar):
@@ -758,7 +766,11 @@ class Exec(object):
             return
         chs = (op.get("chs") or [1] * len(bars))[: len(bars)]
         chs += [1] * (len(bars) - len(chs))
-        self._parallel("play_Bars", ([b.obj for b in bars], chs, op["bpm"]), [bars], op["bpm"], None, {"voices": len(bars)})
+        if op.get("dflt"):
+            self.probes["default_arguments_used"] += 1
+            self._parallel("play_Bars", ([b.obj for b in bars], chs), [bars], 120, None, {"voices": len(bars)})
+        else:
+            self._parallel("play_Bars", ([b.obj for b in bars], chs, op["bpm"]), [bars], op["bpm"], None, {"voices": len(bars)})
 
     def _tracks_voices(self, tracks):
         n = len(tracks[0].bars)
@@ -795,7 +807,11 @@ class Exec(object):
             return
         chs = (op.get("chs") or [])[: len(tracks)]
         chs += list(range(len(chs) + 1, len(tracks) + 1))
-        self._parallel("play_Tracks", ([t.obj for t in tracks], chs, op["bpm"]), vpb, op["bpm"], self._instr_expected(tracks, chs), {"voices": len(tracks)})
+        if op.get("dflt"):
+            self.probes["default_arguments_used"] += 1
+            self._parallel("play_Tracks", ([t.obj for t in tracks], chs), vpb, 120, self._instr_expected(tracks, chs), {"voices": len(tracks)})
+        else:
+            self._parallel("play_Tracks", ([t.obj for t in tracks], chs, op["bpm"]), vpb, op["bpm"], self._instr_expected(tracks, chs), {"voices": len(tracks)})
 
     def do_play_comp(self, op):
         mc = self.world.pick(self.world.comps, op["comp"])
@@ -817,7 +833,11 @@ class Exec(object):
             chs = list(chs)[: len(tracks)]
             chs += list(range(len(chs) + 1, len(tracks) + 1))
             exp_chs = chs
-        self._parallel("play_Composition", (mc.obj, chs, op["bpm"]), vpb, op["bpm"], self._instr_expected(tracks, exp_chs), {"voices": len(tracks)})
+        if op.get("dflt") and chs is None:
+            self.probes["default_arguments_used"] += 1
+            self._parallel("play_Composition", (mc.obj,), vpb, 120, self._instr_expected(tracks, exp_chs), {"voices": len(tracks)})
+        else:
+            self._parallel("play_Composition", (mc.obj, chs, op["bpm"]), vpb, op["bpm"], self._instr_expected(tracks, exp_chs), {"voices": len(tracks)})
 
     # -- observers ------------------------------------------------------------
     def check_observers(self):
@@ -1007,8 +1027,9 @@ def generate(rng, prop, tier):
             r = rng.random()
             if r < 0.25:
                 note = world.gen_note(rng)
-                ops.append({"op": "play_note", "note": note, "on": True, "argch": rng.randrange(16), "argvel": rng.randrange(128)})
-                ops.append({"op": "play_note", "note": note, "on": False, "argch": rng.randrange(16)})
+                d = rng.random() < 0.2
+                ops.append({"op": "play_note", "note": note, "on": True, "argch": rng.randrange(16), "argvel": rng.randrange(128), "dflt": d})
+                ops.append({"op": "play_note", "note": note, "on": False, "argch": rng.randrange(16), "dflt": d})
             elif r < 0.45:
                 ops.append({"op": "play_nc", "notes": world.gen_chord(rng), "argch": rng.randrange(16), "argvel": rng.randrange(128)})
             elif r < 0.85:
@@ -1033,7 +1054,7 @@ def generate(rng, prop, tier):
             b = one_bar(full=rng.random() < 0.7)
             churn_between()
             churn_inside()
-            ops.append({"op": "play_bar", "bar": b, "ch": rng.randrange(16), "bpm": bpm()})
+            ops.append({"op": "play_bar", "bar": b, "ch": rng.randrange(16), "bpm": bpm(), "dflt": rng.random() < 0.12})
 
     def plan_track():
         ops.append({"op": "track", "instr": _gen_instr(rng), "name": None})
@@ -1043,7 +1064,7 @@ def generate(rng, prop, tier):
             ops.append({"op": "tadd", "track": t, "bar": b})
         churn_between()
         churn_inside()
-        ops.append({"op": "play_track", "track": t, "ch": rng.randrange(16), "bpm": bpm()})
+        ops.append({"op": "play_track", "track": t, "ch": rng.randrange(16), "bpm": bpm(), "dflt": rng.random() < 0.12})
 
     def parallel_material(nvoices, nbars):
         """Returns per voice the list of bar indices."""
@@ -1066,7 +1087,7 @@ def generate(rng, prop, tier):
         per_voice, chans = parallel_material(nv, 1)
         churn_between()
         churn_inside()
-        ops.append({"op": "play_bars", "bars": [pv[0] for pv in per_voice], "chs": chans, "bpm": bpm()})
+        ops.append({"op": "play_bars", "bars": [pv[0] for pv in per_voice], "chs": chans, "bpm": bpm(), "dflt": rng.random() < 0.12})
 
     def plan_tracks(comp):
         nv = rng.choice([1, 2, 2, 3, 4])
@@ -1086,13 +1107,13 @@ def generate(rng, prop, tier):
             for t in tidx:
                 ops.append({"op": "cadd", "comp": c, "track": t})
             churn_inside()
-            ops.append({"op": "play_comp", "comp": c, "chs": None if rng.random() < 0.5 else rng.sample(range(16), nv), "bpm": bpm()})
+            ops.append({"op": "play_comp", "comp": c, "chs": None if rng.random() < 0.5 else rng.sample(range(16), nv), "bpm": bpm(), "dflt": rng.random() < 0.2})
         else:
             churn_inside()
             chs = rng.sample(range(16), nv)
             if nv > 1 and rng.random() < 0.3:
                 chs[rng.randrange(1, nv)] = chs[0]  # two tracks announced on the same channel
-            ops.append({"op": "play_tracks", "tracks": tidx, "chs": chs, "bpm": bpm()})
+            ops.append({"op": "play_tracks", "tracks": tidx, "chs": chs, "bpm": bpm(), "dflt": rng.random() < 0.12})
 
     plan = cfg["plan"]
     if plan == "solo":
@@ -1197,6 +1218,7 @@ def describe(prop):
             "cc_boundary_129",
             "midi_instrument_unknown_name",
             "composition_default_channels",
+            "default_arguments_used",
             "attach_duplicate",
             "detach_stranger",
             "rest_played",
